@@ -1,4 +1,7 @@
-use std::{collections::HashMap, sync::Arc};
+use std::{
+    collections::{HashMap, HashSet},
+    sync::Arc,
+};
 
 use ckb_merkle_mountain_range::leaf_index_to_pos;
 use ckb_network::{CKBProtocolContext, PeerIndex};
@@ -51,17 +54,20 @@ impl<'a> GetTransactionsProofProcess<'a> {
             .get_block(&last_block_hash)
             .expect("block should be in store");
 
-        let (found, missing): (Vec<_>, Vec<_>) = self
-            .message
-            .tx_hashes()
-            .to_entity()
-            .into_iter()
-            .partition(|tx_hash| {
-                snapshot
-                    .get_transaction_info(tx_hash)
-                    .map(|tx_info| snapshot.is_main_chain(&tx_info.block_hash))
-                    .unwrap_or_default()
-            });
+        let tx_hashes: Vec<_> = self.message.tx_hashes().to_entity().into_iter().collect();
+
+        let mut uniq = HashSet::new();
+        if !tx_hashes.iter().all(|hash| uniq.insert(hash)) {
+            return StatusCode::MalformedProtocolMessage
+                .with_context("duplicate transaction hash exists");
+        }
+
+        let (found, missing): (Vec<_>, Vec<_>) = tx_hashes.into_iter().partition(|tx_hash| {
+            snapshot
+                .get_transaction_info(tx_hash)
+                .map(|tx_info| snapshot.is_main_chain(&tx_info.block_hash))
+                .unwrap_or_default()
+        });
 
         let mut txs_in_blocks = HashMap::new();
         for tx_hash in found {
